@@ -18,10 +18,15 @@ func init() {
 					r = append(r, Oblig{Harness: "vh_C16_resolve", Globals: map[string]int{"vhRootSegs": rs, "vhImpSegs": is}, Unroll: 12})
 				}
 			}
+			for up := 0; up <= 1; up++ {
+				for from := 0; from <= 2; from++ {
+					r = append(r, Oblig{Harness: "vh_C16_relative", Globals: map[string]int{"vhRelUp": up, "vhRelFrom": from}, Unroll: 12})
+				}
+			}
 			return r
 		},
-		Bounds:      []string{"importer directory: 0..2 (thorough 3) words below GOPATH/src, each any word of 1..6 letters (so also 'vendor')", "import path: 1..2 words", "directory tree: an uninterpreted predicate isdir(path), prefix-closed on the paths in play", "GOPATH fixed to /g, separator '/'"},
+		Bounds:      []string{"importer directory: 0..2 (thorough 3) words below GOPATH/src, each any word of 1..6 letters (so also 'vendor')", "import path: 1..2 words", "directory tree: an uninterpreted predicate isdir(path), prefix-closed on the paths in play", "GOPATH fixed to /g, separator '/'", "relative imports ./x and ../x from the main file or from a package one or two levels below it; main file in <d1>/<d2>/main.go"},
 		Assumptions: []string{"the importer's directory and all its ancestors exist", "a vendored package directory implies its vendor directory", "names contain neither '/' nor '.'"},
-		Outside:     []string{"rootFromSourceLocation (os.Getwd)", "relative imports", "import-once and cycle detection in importSrc", "Windows separators"},
+		Outside:     []string{"rootFromSourceLocation (os.Getwd)", "import-once and cycle detection in importSrc", "Windows separators"},
 	}
 }
